@@ -196,7 +196,7 @@ theorem handleRead_eq {σ} (c : Conn σ) (p : PSt) (e : Ev)
   have hop' : ∀ (c2 : Conn σ), c2.started = c.started → c2.cleaned = c.cleaned → c2.clientAware = c.clientAware →
       c2.ctx = c.ctx → Open c2 p := by
     intro c2 e1 e2 e3 e4
-    cases p <;> simp_all [Rel, Open]
+    cases p <;> simp_all [Rel, Open, respOrUpg]
   unfold handleRead
   cases e with
   | recv toks =>
@@ -230,6 +230,7 @@ theorem handleRead_eq {σ} (c : Conn σ) (p : PSt) (e : Ev)
   | shutdownClose => exact ⟨h, hs, hc⟩
   | cleanup => exact ⟨h, hs, hc⟩
   | appQueue r env => exact ⟨h, hs, hc⟩
+  | upgradeDone => exact ⟨h, hs, hc⟩
 
 theorem handleWrite_eq {σ} (c : Conn σ) (p : PSt) (r : WriteRes)
     (h : Rel c p) (hs : c.started = true) (hc : c.cleaned = false) :
@@ -272,7 +273,7 @@ theorem step_rel {σ} (cfg : Cfg) (app : App σ) (c : Conn σ) (p : PSt) (e : Ev
       split
       · exact h
       · rename_i hns
-        cases p <;> simp_all [Rel, Inv] <;> grind
+        cases p <;> simp_all [Rel, Inv, respOrUpg] <;> grind
     | recv toks =>
       simp only
       split
@@ -348,7 +349,7 @@ theorem step_rel {σ} (cfg : Cfg) (app : App σ) (c : Conn σ) (p : PSt) (e : Ev
           obtain ⟨t1, t2, t3, t4⟩ := h1
           simp only
           rw [t2] at t1 ⊢
-          simp only [Rel, Inv] at t1 ⊢
+          simp only [Rel, Inv, respOrUpg] at t1 ⊢
           simp_all
     | appQueue r env =>
       simp only
@@ -365,7 +366,7 @@ theorem step_rel {σ} (cfg : Cfg) (app : App σ) (c : Conn σ) (p : PSt) (e : Ev
           -- the effect of MHD_queue_response
           have hq : Rel (queueResponse env c r).1 (Protocol.run p (queueResponse env c r).2.1) ∧
               (queueResponse env c r).1.started = true ∧ (queueResponse env c r).1.cleaned = false := by
-            have hinv : Inv c := by cases p <;> simp_all [Rel]
+            have hinv : Inv c := by cases p <;> simp_all [Rel, respOrUpg]
             simp only [Inv] at hinv
             unfold queueResponse
             cases hr : c.response with
@@ -389,8 +390,8 @@ theorem step_rel {σ} (cfg : Cfg) (app : App σ) (c : Conn σ) (p : PSt) (e : Ev
                           · exact absurd ⟨h5, h11⟩ hst
                       clear hgo hok
                       rcases hst' with h5 | h11
-                      · cases p <;> simp_all [Rel, Inv, stateSite] <;> grind
-                      · cases p <;> simp_all [Rel, Inv, stateSite] <;> grind
+                      · cases p <;> simp_all [Rel, Inv, respOrUpg, stateSite] <;> grind
+                      · cases p <;> simp_all [Rel, Inv, respOrUpg, stateSite] <;> grind
                     · split <;> simpa using hlive.1
                     · split <;> simpa using hc
           split
@@ -408,13 +409,24 @@ theorem step_rel {σ} (cfg : Cfg) (app : App σ) (c : Conn σ) (p : PSt) (e : Ev
         have hc : c.cleaned = false := by simpa using hlive.2
         split
         · rename_i hic
-          have hinv : Inv c := by cases p <;> simp_all [Rel]
+          have hinv : Inv c := by cases p <;> simp_all [Rel, respOrUpg]
           simp only [Inv] at hinv
           have hcl := hinv.2.2.2.2.2.1 hic
-          have := hinv.2.2.2.1 hcl
-          simp only [dropResp, this.2]
-          cases p <;> simp_all [Rel]
+          simp only [dropResp, hcl.2.2]
+          cases p <;> simp_all [Rel, respOrUpg]
         · exact h
+    | upgradeDone =>
+      simp only
+      split
+      · exact h
+      · rename_i hlive
+        simp only [Bool.not_eq_true', Bool.or_eq_true, Bool.not_eq_eq_eq_not, Bool.not_true, not_or, Bool.not_eq_false] at hlive
+        have hc : c.cleaned = false := by simpa using hlive.2
+        split
+        · exact h
+        · rename_i hgo
+          unfold notify
+          cases p <;> simp_all [Rel, Inv, respOrUpg] <;> grind
 
 /-- the relation is preserved along every event sequence -/
 theorem run_rel {σ} (cfg : Cfg) (app : App σ) :
@@ -430,6 +442,6 @@ theorem run_rel {σ} (cfg : Cfg) (app : App σ) :
     exact ih _ _ (step_rel cfg app c p e h (hok e (by simp))) (fun e' he' => hok e' (by simp [he']))
 
 theorem init_rel {σ} (s : σ) : Rel (Conn.init s) .fresh := by
-  simp [Rel, Inv, Conn.init]
+  simp [Rel, Inv, respOrUpg, Conn.init]
 
 end Mhd.ConnSM
